@@ -29,7 +29,7 @@ theorem seenBy_nodup_step {s : Net} {op : Op} (h : ∀ f, f ∈ s.flight → f.a
   cases flight_step hf with
   | old h' => exact h f h'
   | ann hint hop ha hd hadv => rw [(mem_announceAdvs hadv).seenBy]; simp
-  | fwd a m hm hl ha hb hd hne hns hself hseen hsb hlim hadv =>
+  | fwd a m hm hl ha hb hd hne hns hself hseen hsb hlim hwire hadv =>
     rw [hadv, fwdAdv_seenBy]
     have := h _ hm
     refine List.nodup_append.2 ⟨this, by simp, ?_⟩
@@ -495,7 +495,9 @@ theorem C11_forward_once (s : Net) (a b : Node) (m : Adv) :
           · simp
           · split
             · simp
-            · exact key
+            · split
+              · simp
+              · exact key
   · intro h
     rcases List.mem_map.1 h with ⟨⟨p, m'⟩, hpm, hp⟩
     simp only at hp
@@ -524,7 +526,7 @@ theorem pathInv_step {s : Net} {op : Op} (hI : PathInv s) (hb : benignOp s op = 
     | ann hint hop ha hd hadv =>
       have h := mem_announceAdvs hadv
       rw [h.path, h.seenBy]; simp
-    | fwd a m hm hl ha hb' hd hne hns hself hseen hsb hlim hadv =>
+    | fwd a m hm hl ha hb' hd hne hns hself hseen hsb hlim hwire hadv =>
       rw [hadv, fwdAdv_seenBy]
       obtain ⟨hnd, hsub⟩ := hI.flight _ hm
       cases hwd : m.wd with
